@@ -11,7 +11,7 @@ TECHNIQUE = 'runtime monitoring: offline checker over the timestamped wire tap (
 RULE = ('configured hold x proposed hold from {0,3,4,9,30,90,180,65535} x arrival schedules (gaps H-e, H, H+e, bursts, long runs, '
         'silence, ROUTE-REFRESH only, malformed UPDATEs, agent-side REST UPDATEs), each executed on the simulated reactor with the '
         'arrival-first and the timer-first order when an arrival coincides with the hold deadline; the checker predicts the exact '
-        'expiry instant and bounds every gap between agent emissions by H/3; distinct = distinct (configured, proposed, schedule shape, order)')
+        'expiry instant and bounds every gap between KEEPALIVEs of the agent by H/3 (operator-requested UPDATE, ROUTE-REFRESH and binary sends interleaved: they do not stand in for a KEEPALIVE); distinct = distinct (configured, proposed, schedule shape, order)')
 ASSUMPTIONS = ['simulated Twisted reactor with virtual time (verif/shims); 1 us tolerance for float keepalive periods',
                'reference deframer vlib/wire.py reads the OPEN hold times from the wire']
 SHARD_TIMEOUT = {'quick': 240, 'thorough': 1500}
@@ -44,9 +44,11 @@ def schedules(H, rng, n_random):
     out.append(('rr-only', [(H / 2.0, 'RR')] * 5))
     out.append(('rr-then-ka', [(H / 2.0, 'RR'), (H / 2.0 - e, 'KA'), (H / 2.0, 'RR'), (H / 2.0, 'RR')]))
     out.append(('rest-updates', [(H / 3.0, 'REST'), (H / 4.0, 'KA'), (H / 3.0, 'REST'), (H - e, 'UPD'), (H / 5.0, 'REST')]))
+    out.append(('rest-updates-often', [(H / 4.0, 'REST' if i % 4 else 'KA') for i in range(16)]))
+    out.append(('rest-sends-mixed', [(H / 5.0, ('REST', 'RESTRR', 'RESTBIN', 'KA')[i % 4]) for i in range(16)]))
     gaps = [0.0, e, H / 3.0, H / 2.0, H - 1.0, H - e, float(H), H + e, H + 1.0, 2.0 * H]
     for i in range(n_random):
-        out.append(('rand%d' % i, [(max(0.0, rng.choice(gaps)), rng.choice(['KA', 'KA', 'UPD', 'UPDBAD', 'RR', 'REST']))
+        out.append(('rand%d' % i, [(max(0.0, rng.choice(gaps)), rng.choice(['KA', 'KA', 'UPD', 'UPDBAD', 'RR', 'REST', 'RESTRR', 'RESTBIN']))
                                    for _ in range(rng.randint(1, 10))]))
     return out
 
@@ -107,8 +109,9 @@ def run_case(cfg_hold, prop_hold, sched, order, phase='established', ka_delay=0.
             w.advance(t - w.now())
         if not tr.connected or tr.disconnecting:
             break
-        if kind == 'REST':
-            w.rest('POST', 'send/update', json_body=S.REST_SENDS['R_UPD'][2])
+        if kind in ('REST', 'RESTRR', 'RESTBIN'):
+            m_, p_, b_ = S.REST_SENDS[dict(REST='R_UPD', RESTRR='R_RR', RESTBIN='R_BIN')[kind]]
+            w.rest(m_, p_, json_body=b_)
             continue
         data = dict(KA=KEEPALIVE, UPD=S.UPD_EMPTY, UPDBAD=UPD_BAD, RR=S.MSGS['RR'][0])[kind]
         w.deliver(data, tr)
@@ -125,7 +128,8 @@ def run_case(cfg_hold, prop_hold, sched, order, phase='established', ka_delay=0.
     # ---------------------------------------------------------------- offline checker
     fr = wire.frames_of_writes(tr.written)
     notifs = [(f[0], wire.summarize(f)) for f in fr if f[1] == 3]
-    ka_upd = [f[0] for f in fr if f[1] in (2, 4)]
+    # the statement says KEEPALIVE: an UPDATE sent on the operator's behalf does not stand in for one
+    ka_upd = [f[0] for f in fr if f[1] == 4]
     info['emissions'] = len(ka_upd)
     feats = ['order:' + order]
     if H == 0:
@@ -160,7 +164,7 @@ def run_case(cfg_hold, prop_hold, sched, order, phase='established', ka_delay=0.
         ratio = (b - a) / (H / 3.0)
         info['max_gap_ratio'] = max(info['max_gap_ratio'], ratio)
         if b - a > H / 3.0 + EPS:
-            bad('emission-gap', 'no KEEPALIVE/UPDATE from the agent between %s and %s (H/3=%s)' % (a, b, H / 3.0), feats)
+            bad('emission-gap', 'no KEEPALIVE from the agent between %s and %s (H/3=%s)' % (a, b, H / 3.0), feats)
             break
     return V, info
 
